@@ -126,7 +126,8 @@ def j4_wrap(prog, rep):
                         continue
                     if x.cls == "BinaryOperator" and x.op == "-" and (u.types.get(x.ty) or {}).get("signed") is False:
                         m = x.kid(0).strip() if x.kid(0) is not None else None
-                        if not (m is not None and m.cls == "CallExpr" and m.callee == "strlen"):
+                        mt = norm(x.kid(0)) if x.kid(0) is not None else ("?",)       # read through a new local that holds the length
+                        if not ((m is not None and m.cls == "CallExpr" and m.callee == "strlen") or (mt[0] == "call" and mt[1] == "strlen")):
                             cand.append((e, x))
                     stack.extend(x.kids)
             if not cand:
